@@ -1398,3 +1398,57 @@ mut(
     "_PLAIN_LIST = lstrip_typings(\"typings.List\")\n\n__all__ = [\n    \"_inspect\",\n    \"get_parser\",",
     expect="ok",
 )
+
+mut(
+    "c16-item-gate-needs-create",
+    "C16",
+    "C16.crud",
+    OU,
+    "    if not frozenset(crud) - frozenset(\"CRUD\"):\n",
+    "    if len(crud) > 1:\n",
+    mention=("not emitted although requested",),
+)
+mut(
+    "c16-read-arm-also-on-create",
+    "C16",
+    "C16.crud",
+    OU,
+    "        if \"R\" in crud:\n",
+    "        if \"R\" in crud or \"C\" in crud:\n",
+)
+mut(
+    "c16-memoised-yaml-load",
+    "C16",
+    "C16.state",
+    "cdd/compound/openapi/parse.py",
+    "def openapi(openapi_str, routes_dict, summary):\n",
+    "from functools import lru_cache\n\n\n@lru_cache(maxsize=None, typed=True)\ndef _load(openapi_str):\n    \"\"\"load\"\"\"\n    return (loads if openapi_str.startswith(\"{\") else safe_load)(openapi_str)\n\n\ndef openapi(openapi_str, routes_dict, summary):\n",
+    expect="ok",
+)
+mut2(
+    "c16-memoised-yaml-load-mutated",
+    "C16",
+    "C16.state",
+    [
+        {
+            "file": "cdd/compound/openapi/parse.py",
+            "old": "def openapi(openapi_str, routes_dict, summary):\n",
+            "new": "from functools import lru_cache\n\n\n@lru_cache(maxsize=None, typed=True)\ndef _load(openapi_str):\n    \"\"\"load\"\"\"\n    return (loads if openapi_str.startswith(\"{\") else safe_load)(openapi_str)\n\n\ndef openapi(openapi_str, routes_dict, summary):\n",
+        },
+        {
+            "file": "cdd/compound/openapi/parse.py",
+            "old": "    openapi_d: dict = (loads if openapi_str.startswith(\"{\") else safe_load)(openapi_str)\n",
+            "new": "    openapi_d: dict = _load(openapi_str)\n",
+        },
+    ],
+    mention=("edited in place",),
+)
+mut(
+    "c14-foreign-key-removed-only-when-truthy",
+    "C14",
+    "C14.entry",
+    "cdd/sqlalchemy/utils/parse_utils.py",
+    "    if \"nullable\" in _param:\n",
+    "    if _param.get(\"nullable\") is not None:\n",
+    mention=("nullable",),
+)
